@@ -1,9 +1,9 @@
 package main
 
 import (
-	"go/ast"
+	"fmt"
 	"go/token"
-	"sort"
+	"go/types"
 	"strings"
 
 	"golang.org/x/tools/go/ssa"
@@ -127,8 +127,10 @@ func isRemovalNotify(fn *ssa.Function, site ssa.CallInstruction) (bool, bool) {
 			continue
 		}
 		found = true
-		if cb, ok := constBool(s2.Common().Args[1]); ok && cb {
-			removal = true
+		if fl := subscriptionFlagArgs(s2); len(fl) >= 2 && fl[1] != nil {
+			if cb, ok := constBool(fl[1]); ok && cb {
+				removal = true
+			}
 		}
 	}
 	return found, removal
@@ -358,86 +360,158 @@ func reachableNoBackEdge(fn *ssa.Function, pred func(ssa.Instruction) bool, to s
 // ---------- R4 ----------
 
 func c11r4(p *Prog, r *Reporter) {
-	pk := p.Pkgs["ecs"]
-	type site struct {
-		fn   string
-		pos  token.Pos
-		args []string
+	// flag classes
+	cls := func(v ssa.Value) string {
+		if v == nil {
+			return "false"
+		}
+		if cb, ok := constBool(v); ok {
+			return fmt.Sprint(cb)
+		}
+		if bo, ok := v.(*ssa.BinOp); ok {
+			if c := callOf(bo.X); c != nil {
+				if bi, ok := c.Call.Value.(*ssa.Builtin); ok && bi.Name() == "len" {
+					if k, ok := constInt64(bo.Y); ok && (bo.Op == token.GTR && k == 0 || bo.Op == token.NEQ && k == 0 || bo.Op == token.GEQ && k == 1) {
+						return "len>0"
+					}
+				}
+			}
+			if bo.Op == token.NEQ && (isNilConst(bo.Y) || isNilConst(bo.X)) {
+				return "!=nil"
+			}
+		}
+		return "computed"
 	}
-	var sites []site
-	for _, file := range pk.Syntax {
-		for _, d := range file.Decls {
-			fd, ok := d.(*ast.FuncDecl)
-			if !ok || fd.Body == nil || fd.Name.Name == "subscription" {
+	same := func(a, b ssa.Value) bool {
+		if a == nil || b == nil {
+			return a == b
+		}
+		return a == b || structEq(a, b, 0) || cls(a) == cls(b) && (cls(a) == "true" || cls(a) == "false")
+	}
+	// b is a || something: a phi with a constant-true edge selected by a's true branch, or an OR of a
+	impliedBy := func(a, b ssa.Value) bool {
+		if b == nil || a == nil {
+			return false
+		}
+		if ph, ok := b.(*ssa.Phi); ok {
+			for i, e := range ph.Edges {
+				if cb, isC := constBool(e); isC && cb {
+					pred := ph.Block().Preds[i]
+					if iff, ok := pred.Instrs[len(pred.Instrs)-1].(*ssa.If); ok && (iff.Cond == a || structEq(iff.Cond, a, 0)) && pred.Succs[0] == ph.Block() {
+						return true
+					}
+				}
+			}
+		}
+		if bo, ok := b.(*ssa.BinOp); ok && bo.Op == token.OR {
+			return bo.X == a || bo.Y == a
+		}
+		return false
+	}
+	for _, fn := range p.Funcs {
+		if fn.Pkg == nil || fn.Pkg.Pkg.Name() != "ecs" || cname(fn) == "subscription" {
+			continue
+		}
+		n := 0
+		for _, site := range callsIn(fn) {
+			sc := site.Common().StaticCallee()
+			if sc == nil || cname(sc) != "subscription" || sc.Pkg == nil || sc.Pkg.Pkg.Name() != "ecs" {
 				continue
 			}
-			fname := "ecs." + fd.Name.Name
-			if fd.Recv != nil {
-				fname = "ecs.(" + recvTypeName(fd.Recv.List[0].Type) + ")." + fd.Name.Name
+			a := subscriptionFlagArgs(site)
+			if len(a) != 6 {
+				r.Und(p.FuncName(fn), "type bits", p.Pos(site.Pos()), "the call of subscription() does not pass six flags in a recognised form")
+				continue
 			}
-			ast.Inspect(fd.Body, func(n ast.Node) bool {
-				ce, ok := n.(*ast.CallExpr)
-				if !ok {
-					return true
+			n++
+			var c [6]string
+			for i := range a {
+				c[i] = cls(a[i])
+			}
+			bad, kind := "", ""
+			switch {
+			case c[0] == "true" && c[1] == "false":
+				kind = "creation"
+				if c[2] != "len>0" {
+					bad = "componentAdded is " + c[2] + ", siblings use len(ids) > 0"
 				}
-				if id, ok := ce.Fun.(*ast.Ident); ok && id.Name == "subscription" && len(ce.Args) == 6 {
-					var args []string
-					for _, a := range ce.Args {
-						args = append(args, strings.ReplaceAll(p.src(a), " ", ""))
-					}
-					sites = append(sites, site{fname, ce.Pos(), args})
+				if c[3] != "false" {
+					bad = "componentRemoved is " + c[3] + " at a creation site"
 				}
-				return true
-			})
+				if !same(a[4], a[5]) || !(c[4] == "true" || c[4] == "!=nil") {
+					bad = "relation bits are (" + c[4] + ", " + c[5] + "), siblings use (R, R) with R = newRel != nil or true"
+				}
+			case c[0] == "false" && c[1] == "true":
+				kind = "removal"
+				if c[2] != "false" {
+					bad = "componentAdded is " + c[2] + " at a removal site"
+				}
+				if c[3] != "len>0" {
+					bad = "componentRemoved is " + c[3] + ", siblings use len(oldIds) > 0"
+				}
+				if !same(a[4], a[5]) || c[4] != "!=nil" {
+					bad = "relation bits are (" + c[4] + ", " + c[5] + "), siblings use (oldRel != nil, oldRel != nil)"
+				}
+			default:
+				kind = "exchange"
+				if c[1] != "false" {
+					bad = "entityRemoved is " + c[1] + " at an exchange site"
+				}
+				if c[2] != "len>0" || c[3] != "len>0" {
+					bad = "component bits are (" + c[2] + ", " + c[3] + "), siblings use len(added) > 0, len(removed) > 0"
+				}
+				if !impliedBy(a[4], a[5]) {
+					bad = "relation bits are (" + c[4] + ", " + c[5] + "), siblings use (relChanged, relChanged || targChanged)"
+				}
+			}
+			construct := kind + " type bits"
+			if n > 1 {
+				construct = fmt.Sprintf("%s type bits #%d", kind, n)
+			}
+			if bad != "" {
+				r.Bad(p.FuncName(fn), construct, p.Pos(site.Pos()), bad)
+			} else {
+				r.OK(p.FuncName(fn), construct, p.Pos(site.Pos()), "subscription("+strings.Join(c[:], ", ")+") follows the pattern of its siblings")
+			}
 		}
 	}
-	sort.Slice(sites, func(i, j int) bool { return sites[i].pos < sites[j].pos })
-	lenOf := func(s string) bool { return strings.HasPrefix(s, "len(") && strings.HasSuffix(s, ")>0") }
-	for _, s := range sites {
-		a := s.args
-		bad := ""
-		kind := ""
-		switch {
-		case a[0] == "true" && a[1] == "false":
-			kind = "creation"
-			if !lenOf(a[2]) {
-				bad = "componentAdded is " + a[2] + ", siblings use len(ids) > 0"
-			}
-			if a[3] != "false" {
-				bad = "componentRemoved is " + a[3] + " at a creation site"
-			}
-			if a[4] != a[5] || !(a[4] == "true" || strings.HasSuffix(a[4], "!=nil")) {
-				bad = "relation bits are (" + a[4] + ", " + a[5] + "), siblings use (R, R) with R = newRel != nil or true"
-			}
-		case a[0] == "false" && a[1] == "true":
-			kind = "removal"
-			if a[2] != "false" {
-				bad = "componentAdded is " + a[2] + " at a removal site"
-			}
-			if !lenOf(a[3]) {
-				bad = "componentRemoved is " + a[3] + ", siblings use len(oldIds) > 0"
-			}
-			if a[4] != a[5] || !strings.HasSuffix(a[4], "!=nil") {
-				bad = "relation bits are (" + a[4] + ", " + a[5] + "), siblings use (oldRel != nil, oldRel != nil)"
-			}
-		default:
-			kind = "exchange"
-			if a[1] != "false" {
-				bad = "entityRemoved is " + a[1] + " at an exchange site"
-			}
-			if !lenOf(a[2]) || !lenOf(a[3]) {
-				bad = "component bits are (" + a[2] + ", " + a[3] + "), siblings use len(added) > 0, len(removed) > 0"
-			}
-			if a[5] != a[4]+"||targChanged" {
-				bad = "relation bits are (" + a[4] + ", " + a[5] + "), siblings use (relChanged, relChanged || targChanged)"
-			}
+}
+
+// subscriptionFlagArgs: the six flag values of a call of subscription(): the positional bool arguments, or the fields
+// of an options-struct literal (nil = field not set = false).
+func subscriptionFlagArgs(site ssa.CallInstruction) []ssa.Value {
+	args := site.Common().Args
+	if len(args) >= 6 {
+		return args[:6]
+	}
+	if len(args) != 1 {
+		return nil
+	}
+	st, ok := args[0].Type().Underlying().(*types.Struct)
+	if !ok {
+		return nil
+	}
+	out := make([]ssa.Value, st.NumFields())
+	ld, ok := args[0].(*ssa.UnOp)
+	if !ok || ld.Op != token.MUL {
+		return nil
+	}
+	al, ok := ld.X.(*ssa.Alloc)
+	if !ok {
+		return nil
+	}
+	for _, ref := range *al.Referrers() {
+		fa, ok := ref.(*ssa.FieldAddr)
+		if !ok {
+			continue
 		}
-		if bad != "" {
-			r.Bad(s.fn, kind+" type bits", p.Pos(s.pos), bad)
-		} else {
-			r.OK(s.fn, kind+" type bits", p.Pos(s.pos), "subscription("+strings.Join(a, ", ")+") follows the pattern of its siblings")
+		for _, r2 := range *fa.Referrers() {
+			if s2, ok := r2.(*ssa.Store); ok && s2.Addr == ssa.Value(fa) {
+				out[fa.Field] = s2.Val
+			}
 		}
 	}
+	return out
 }
 
 // ---------- R6 ----------
